@@ -31,6 +31,8 @@ FlagSpace == [ np     : 1..4,                       \* pages
                                                     \* place (emboldening by overprinting) - still on no other page
                drift  : {"none", "x", "y"},         \* the same top-band word on every page, but never twice at one place:
                                                     \* same height and another x on each page / same x and another height
+               grid   : BOOLEAN,                    \* the last page is a column of 40 one-digit cells: its fragments average
+                                                    \* <= 2 characters (a "character-level" page) while the other pages do not
                short  : BOOLEAN,                    \* last page has little content (content bounds << page)
                cover  : BOOLEAN ]                   \* page 1 is a cover: no running header, footer line or page number
 
@@ -49,7 +51,8 @@ PageOf(fl, p) ==
     \* on a short page the body lines sit right below the top band
     \o (IF fl.beqh THEN <<F("Body", IF fl.short /\ p = fl.np THEN 9 ELSE 3, 1, FALSE)>> ELSE <<>>)
     \o (IF fl.bnum THEN <<F("Body", IF fl.short /\ p = fl.np THEN 8 ELSE 4, 4, TRUE)>> ELSE <<>>)
-    \o (IF fl.short /\ p = fl.np THEN <<>> ELSE <<F("Body", 5, 100 + p * 10 + 1, FALSE), F("Body", 6, 100 + p * 10 + 2, FALSE)>>)
+    \o (IF fl.grid /\ p = fl.np /\ fl.np >= 2 THEN [k \in 1..40 |-> F("Body", 100 + k, 200 + (k % 10), TRUE)]
+        ELSE IF fl.short /\ p = fl.np THEN <<>> ELSE <<F("Body", 5, 100 + p * 10 + 1, FALSE), F("Body", 6, 100 + p * 10 + 2, FALSE)>>)
     \o (IF fl.brep THEN <<F("Body", 7, 6, FALSE)>> ELSE <<>>)
     \o (IF fl.foot /\ ~(fl.cover /\ p = 1) THEN <<F("Bottom", 1, 5, FALSE)>> ELSE <<>>)
     \o (CASE fl.cover /\ p = 1 -> <<>>
@@ -57,7 +60,7 @@ PageOf(fl, p) ==
 
 DocOf(fl) == [p \in 1..fl.np |-> PageOf(fl, p)]
 
-Init == /\ flags \in FlagSpace /\ doc = DocOf(flags) /\ opt \in {"headers", "footers", "both"}
+Init == /\ flags \in {f \in FlagSpace : f.grid => (f.np >= 2 /\ ~f.short /\ ~f.brep /\ ~f.bnum /\ ~f.beqh /\ f.drift = "none")} /\ doc = DocOf(flags) /\ opt \in {"headers", "footers", "both"}
 Next == FALSE /\ UNCHANGED vars
 Spec == Init /\ [][Next]_vars
 
